@@ -143,16 +143,18 @@ def run(ck, ctx):
         r = I.run(I.func_node(fi), [val, unit])
         v = r.value
         fn = "parse_units"
-        ok = v is not None and v.op == "Phi" and v.args[0].op == "IsInstance" and v.args[0].args[0] is val
+        cond, conv, bare = (v.args if v is not None and v.op == "Phi" else (None, None, None))
+        while cond is not None and cond.op == "UnaryOp" and cond.attr == "Not":
+            cond, conv, bare = cond.args[0], bare, conv
+        ok = cond is not None and cond.op == "IsInstance" and cond.args[0] is val
         ck.ob("R15.2", "parse_units distinguishes quantities / strings from bare numbers", ok, v, fn,
               g.show(v, 3) if v is not None else "no value")
         if not ok:
             return
-        types = v.args[0].args[1]
+        types = cond.args[1]
         tnames = {x.attr for x in (types.args if types.op == "Tuple" else [types]) if x.op == "Ext"}
         ck.ob("R15.2", "the converted kinds are exactly (Quantity, str)", tnames == {"astropy.units.Quantity",
-              "builtins.str"}, v.args[0], fn, str(sorted(tnames)))
-        conv, bare = v.args[1], v.args[2]
+              "builtins.str"}, cond, fn, str(sorted(tnames)))
         okc = conv.op == "Attr" and conv.attr == "value" and conv.args[0].op == "MCall" and \
             conv.args[0].attr[0] == "to" and conv.args[0].args[1] is unit and \
             is_ext_call(conv.args[0].args[0], "astropy.units.Quantity") and conv.args[0].args[0].args[1] is val and \
@@ -210,12 +212,18 @@ def run(ck, ctx):
 
     # ---------------------------------------------------------------- R15.4 sibling agreement
     def r154():
-        def strptime_formats(fnode):
+        def strptime_formats(fi, pre=()):
+            """format strings of every strptime(date, fmt) evaluated by the function on its date argument"""
+            n0 = len(g.nodes)
+            d = I.input("date")
+            I.run(I.func_node(fi), list(pre) + [d])
             out = set()
-            for n in ast.walk(fnode):
-                if isinstance(n, ast.Call) and census.dotted(n.func).split(".")[-1] == "strptime" and len(n.args) == 2 \
-                        and isinstance(n.args[1], ast.Constant):
-                    out.add(n.args[1].value)
+            for n in g.nodes[n0:]:
+                if n.op == "Call" and n.args[0].op == "Ext" and n.args[0].attr.endswith(".strptime") and \
+                        len(n.args) == 3 and n.args[1] is d:
+                    if n.args[2].op != "Const":
+                        raise AnalysisError(f"strptime format at line {n.site[1] if n.site else '?'} is not a constant")
+                    out.add(n.args[2].attr)
             return out
         pm = sch.models.get("Simulation.PressureMapCloud")
         vm = None
@@ -224,12 +232,12 @@ def run(ck, ctx):
                 vm = fi
         if vm is None:
             raise AnalysisError("month validator not found")
-        f1 = strptime_formats(vm.node)
+        f1 = strptime_formats(vm, [I.class_node(pm.ci)])
         ck.ob("R15.4", "the month validator accepts number, name and abbreviation", f1 == MONTH_FORMATS,
               (mod.relpath, vm.node.lineno, 0), vm.qualname, str(sorted(f1)))
         ct = ctx.prog.module("nuspacesim.types.cloud_types")
         if ct is not None and "parse_month" in ct.functions:
-            f2 = strptime_formats(ct.functions["parse_month"].node)
+            f2 = strptime_formats(ct.functions["parse_month"])
             ck.ob("R15.4", "types.cloud_types.parse_month accepts the same month formats", f2 == f1,
                   (ct.relpath, ct.functions["parse_month"].node.lineno, 0), "parse_month", str(sorted(f2)))
         n_cli = 0
